@@ -115,7 +115,8 @@ def run_case(case):
     rng = random.Random(case["rseed"])
     viol, cnt, mx = [], {}, {}
     m = rng.choice([1, 2])
-    d = rng.choice([2, 3])
+    d = rng.choice([1, 2, 3])  # (state size 1 with a batch: shapes that collapse under a bare squeeze)
+    m = min(m, d)  # full column rank (see ASSUMPTIONS): no more noise channels than state components
     B = rng.choice([1, 3])
     # (element-wise diffusion with components of either sign; additive diffusion that differs between batch rows)
     base = zoo.cell_sde(cell, d=d, m=m, seed=rng.randrange(10 ** 6), gscale=0.7, signed=True, batch_varying=True)
